@@ -483,6 +483,11 @@ func (oc *objectCache) get(obj types.Object) (val interface{}, errs []error) {
 		// Universe-scope objects such as nil have no package.
 		return nil, []error{fmt.Errorf("%v is not a provider or a provider set", obj)}
 	}
+	if obj.Parent() != obj.Pkg().Scope() {
+		// The cache is keyed by package and name: a parameter or local
+		// variable must not be taken for the package-level object it shadows.
+		return nil, []error{fmt.Errorf("%v is not a provider or a provider set", obj)}
+	}
 	ref := objRef{
 		importPath: obj.Pkg().Path(),
 		name:       obj.Name(),
